@@ -216,7 +216,17 @@ def run(res):
                       "".join(".equ k%d = %d\n" % (i, i) for i in range(n)) + " .dw (k0)\n"))
         # nested: the empty calls stand inside another macro's body
         pairs.append((".macro e\n.endm\n.macro outer\n" + " e\n" * min(n, 70) + " .dw @0\n.endm\n outer 3\n outer 4\n", " .dw (3)\n .dw (4)\n"))
-    errs = [(".macro m\n nop\n.endm\n undefined_macro_call\n", "undefined-macro"),
+    # a definition in a branch that is NOT assembled defines nothing and touches no other macro; the one in the assembled branch counts
+    for taken in (0, 1):
+        a, b = " .dw 0xAAAA", " .dw 0xBBBB"
+        pairs.append((".macro first\n .dw 1\n.endm\n.if %d\n.macro m\n%s\n.endm\n.else\n.macro m\n%s\n.endm\n.endif\n first\n m\n first\n" % (taken, a, b),
+                      " .dw 1\n%s\n .dw 1\n" % (a if taken else b)))
+        pairs.append((".macro first\n .dw @0\n.endm\n.if %d\n first 5\n.else\n.macro other\n .dw 9\n.endm\n.endif\n first 6\n" % taken,
+                      (" .dw (5)\n" if taken else "") + " .dw (6)\n"))
+        pairs.append((".macro keep\n .dw 7\n.endm\n.ifdef NOPE\n.macro shadow\n .dw 8\n.if 1\n nop\n.endif\n.endm\n.endif\n keep\n", " .dw 7\n"))
+        pairs.append((" keep\n.macro keep\n .dw 7\n.endm\n.if 0\n.macro a\n nop\n.endm\n.macro b\n nop\n.endm\n.endif\n keep\n", " .dw 7\n .dw 7\n"))
+    errs = [(".macro m\n nop\n.endm\n.if 0\n.macro gone\n nop\n.endm\n.endif\n gone\n", "undefined-macro"),
+            (".macro m\n nop\n.endm\n undefined_macro_call\n", "undefined-macro"),
             (".macro m\n ldi r16, @0\n.endm\n m\n", "missing-argument"),
             (".macro m\n ldi @0, @1\n.endm\n m r16\n", "missing-argument"),
             (" neverdefined r1, r2\n", "undefined-macro")]
